@@ -64,10 +64,21 @@ def s_strict(nchunks, bufsize, stream_len):
     fb = frame_buffer(recv, True)
     sx.unit(fb, "recv_buffer")  # pre-loaded read-ahead buffer: private attribute
     sx.unit(fb, "recv_strict")
-    fb.recv_buffer = list(pre)
     before = b""
     for c in pre:
         before = before + c
+    # the private buffer's representation is the tree's own business: a list of chunks (as today) or one flat byte buffer
+    # (bytearray / bytes); any other representation makes this unit-level obligation not applicable (the public-API obligations decide)
+    from bvsym import shims as _shims
+    proto = fb.recv_buffer
+    if isinstance(proto, list):
+        fb.recv_buffer = list(pre)
+    elif isinstance(proto, (bytearray, _shims.SymByteArray)):
+        fb.recv_buffer = _shims.SymByteArray(before) if core.MODE != "concrete" else bytearray(before)
+    elif isinstance(proto, bytes):
+        fb.recv_buffer = before
+    else:
+        raise sx.UnitMissing("frame_buffer.recv_buffer of type %s" % type(proto).__name__)
     try:
         ret = fb.recv_strict(bufsize)
         raised = False
@@ -75,8 +86,11 @@ def s_strict(nchunks, bufsize, stream_len):
         ret = b""
         raised = True
     after = b""
-    for c in fb.recv_buffer:
-        after = after + c
+    if isinstance(fb.recv_buffer, list):
+        for c in fb.recv_buffer:
+            after = after + c
+    else:
+        after = after + _shims.BytesShim(fb.recv_buffer)
     unread = stream[state["pos"]:]
     total_before = before + stream
     total_after = ret + after + unread
